@@ -103,6 +103,9 @@ pub fn replay_calls(cfg: &Cfg, calls: &[WCall], burst_ix: usize, cuts: &[usize])
             WCall::SetPing(ms) => {
                 w.set_ping(*ms);
             }
+            WCall::SetPingresp(ms) => {
+                w.set_pingresp(*ms);
+            }
             WCall::Crash(m) => {
                 w.crash_restore(*m);
             }
@@ -256,6 +259,9 @@ pub fn fork(kind: ForkKind, cfg_a: &Cfg, cfg_b: &Cfg, head_a: &[Op], head_b: &[O
         // configuration scope: carry the user's ping override over to the fresh object
         if let Some(ms) = a.w.m.user_ms {
             b.exec(&Op::SetPing { ms: Some(ms) });
+        }
+        if a.w.opts.pingresp_to_ms != b.w.opts.pingresp_to_ms {
+            b.exec(&Op::SetPingresp { ms: a.w.opts.pingresp_to_ms });
         }
         b.now_ms = a.now_ms;
         b.alt = a.alt;
